@@ -16,7 +16,10 @@ RULE = ("per dataset (PSM table whose peptides come from a generated FASTA with 
         "with proteins is run in fresh interpreters under PYTHONHASHSEED in {0, 1, 2, random} x max_workers in {1, 4}, "
         "half of the datasets carry a string-valued filename column in the spectrum key; twice in each process, and the returned models are fed back in every permutation (k! for k<=4 folds; reversed, rotated and two random orders for 10 folds). Compared "
         "bit for bit (float.hex / sha256): fold numbers, model coefficients, scores, descs, every result file (PSM, "
-        "peptide, protein level), read_fasta maps. distinct = (dataset, hash seed, workers); non-trivial = all of them")
+        "peptide, protein level), read_fasta maps. The confidence stage is run a second time with the scores rounded to one "
+        "decimal (exact ties at every level, inside proteins and target/decoy protein pairs), and the interpreter-global numpy / "
+        "random state is set differently before the two runs of a process. distinct = (dataset, hash seed, workers); "
+        "non-trivial = the analysis ran through (every fold trained, all six result files written)")
 ASSUMPTIONS = [
     "bit-reproducibility of numpy Generators, liblinear and BLAS across processes is runtime: observed, not proved",
     "shared_peptides VALUES ('; '.join(set)) differ between hash seeds by design; only the key set is compared and used downstream",
@@ -36,19 +39,43 @@ def gen(ctx):
         allp = list(P.peptide_map.items()) + list(P.shared_peptides.items())
         tpeps = sorted(p for p, g in allp if not g.startswith("decoy_"))
         dpeps = sorted(p for p, g in allp if g.startswith("decoy_"))
-        n = rng.randint(90, 160)
+        # exact score ties inside a protein / inside a target-decoy protein pair: twin PSMs with identical feature
+        # values on two different peptides of the same pair, which occur in no other PSM, so that the picked-protein
+        # step has to break the tie (with the seeded generator, never with interpreter-global state)
+        pkey = lambda gname: P.protein_map.get(gname.split(",")[0].strip(), gname.split(",")[0].strip())
+        bykey = {}
+        for pep, gname in sorted(P.peptide_map.items()):
+            bykey.setdefault(pkey(gname), []).append((pep, not gname.startswith("decoy_")))
+        pairs = []
+        for key in sorted(bykey):
+            if len(bykey[key]) >= 2 and len(pairs) < 6 and rng.random() < 0.5:
+                pairs.append(rng.sample(bykey[key], 2))
+        reserved = {pep for pr in pairs for pep, _ in pr}
+        tpool = [p_ for p_ in tpeps if p_ not in reserved] or tpeps
+        dpool = [p_ for p_ in dpeps if p_ not in reserved] or dpeps
+        n = rng.randint(360, 520)
         rows = []
         for i in range(n):
             tgt = rng.random() < 0.6
-            pep = rng.choice(tpeps if tgt else dpeps)
+            pep = rng.choice(tpool if tgt else dpool)
             good = tgt and rng.random() < 0.75
             rows.append((tgt, pep, good))
+        twins = {}
+        for j, pr in enumerate(pairs):
+            for pep, tgt in pr:
+                twins[len(rows)] = 0.5 + 0.375 * j
+                rows.append((tgt, pep, False))
+        n = len(rows)
         cols = {"SpecId": ["psm%d" % i for i in range(n)], "Label": [1 if r[0] else -1 for r in rows],
                 "ScanNr": [rng.randint(1, n // 2) for _ in range(n)], "ExpMass": [500 + rng.randint(0, 5) * 0.25 for _ in range(n)],
-                "feat0": [round(rng.gauss(4.0 if r[2] else 0.0, 1.0), 4) for r in rows],
-                "feat1": [round(rng.gauss(1.0 if r[2] else 0.0, 1.0), 4) for r in rows],
+                # two equally informative features: the learned combination beats the best single feature on every fold
+                "feat0": [round(rng.gauss(2.5 if r[2] else 0.0, 1.0), 4) for r in rows],
+                "feat1": [round(rng.gauss(2.5 if r[2] else 0.0, 1.0), 4) for r in rows],
                 "feat2": [round(rng.random(), 4) for _ in range(n)],
                 "Peptide": ["K." + r[1] + ".A" for r in rows], "Proteins": ["x"] * n}
+        for i, v in twins.items():
+            cols["ScanNr"][i] = n + i
+            cols["feat0"][i], cols["feat1"][i], cols["feat2"][i] = v, 0.5, 0.5
         if k % 2 == 0:
             # a string-valued spectrum column: the spectrum key (filename, ScanNr) then contains a string, so that a
             # hash-seed dependent treatment of it (fold assignment) shows up between interpreter sessions
@@ -57,7 +84,7 @@ def gen(ctx):
                     **{kk: v for kk, v in cols.items() if kk not in ("SpecId", "Label", "ScanNr")}}
         files = [{"columns": list(cols.keys()), "data": cols}]
         base = {"fn": "history", "files": files, "fasta": fasta, "fasta_args": dict(c15.FASTA_ARGS), "seed": rng.randint(1, 10 ** 6),
-                "folds": rng.choice([2, 3, 3, 4]) if k % 3 else 10, "train_fdr": 0.3, "test_fdr": 0.3}
+                "folds": rng.choice([2, 3, 3, 4]) if k % 3 else 10, "train_fdr": 0.05, "test_fdr": 0.2}
         for hs in ["0", "1", "2", str(rng.randint(3, 4000000))]:
             for w in (1, 4):
                 c = dict(base)
@@ -80,6 +107,7 @@ def _ckey(c):
 
 
 _REF = {}
+_NONTRIVIAL = {}
 
 
 def _run_worker(c):
@@ -114,6 +142,7 @@ def run_case(c):
             "same_as_reference": res["run1"] == ref,
             "n_perms": len(res["perms"]), "error": res["run1"].get("error"), "conf_error": res["run1"].get("conf_error"),
             "all_trained": all(res["run1"].get("trained") or [False])}
+    _NONTRIVIAL[_ckey(c)] = bool(impl["all_trained"] and not impl["error"] and not impl["conf_error"] and res["run1"].get("files"))
     if not impl["same_as_reference"]:
         impl["diff_keys"] = [k for k in set(ref) | set(res["run1"]) if ref.get(k) != res["run1"].get(k)]
     return ("ok", model), ("ok", impl)
@@ -124,7 +153,8 @@ def same(c, m, i):
 
 
 def nontrivial(c):
-    return True
+    """the analysis ran through (models trained on every fold, confidence written) — recorded by run_case"""
+    return _NONTRIVIAL.get(_ckey(c), False)
 
 
 def oracle(c, i):
